@@ -111,6 +111,10 @@ func c04Feedback(c *gen.Ctx) {
 		": leading",
 		"plain",
 		"tab\there: and there",
+		"%s %d %!v(MISSING) 100% %[2]q",
+		strings.Repeat("long ", 2000) + "line",
+		"  two blanks in front",
+		"non-ASCII: \u00fcn\u00ef \u2713",
 	}
 	n := 40
 	if c.Thorough() {
